@@ -115,6 +115,13 @@ var CfgC05 = reg(&MachineCfg{
 
 var CfgC11 = reg(&MachineCfg{
 	Prop: "C11", Gens: didGens,
+	Setup: func(g *G, opt *world.Options) {
+		// a registry that already holds entries (every one about its own identifier), often
+		// more than any page or batch size
+		if g.chance("did-genesis-mode", 25) {
+			opt.DidGenesis = g.genDidGenesis(app.MakeEncodingConfig().Codec, world.DIDKeys(), true)
+		}
+	},
 	Bias: map[string]int{"right-signers": 95, "exec": 2, "right-proof": 85, "did-mismatch": 40},
 	Rule: "DID machine in which the DID field, the document id and the signed payload are chosen independently (own, other user's, unregistered DIDs) and accepted messages are replayed under other DID fields; oracle = for every active entry under d the stored/read/exported document id is d; non-trivial = >=1 mismatching message carrying an otherwise valid proof",
 	NonTrivial: func(w *world.World) bool {
@@ -240,7 +247,7 @@ var CfgC07 = reg(&MachineCfg{
 	},
 })
 
-var mixedGens = []interface{}{"aol", 22, "did", 18, "pnft", 22, "burn", 6, "bank", 4, "authz", 3, "sim_aol", 2, "sim_did", 2, "sim_pnft", 2}
+var mixedGens = []interface{}{"aol", 22, "did", 18, "pnft", 22, "burn", 6, "bank", 4, "authz", 3, "gov", 4, "crisis", 3, "sim_aol", 2, "sim_did", 2, "sim_pnft", 2}
 
 func withGens(extra ...interface{}) []interface{} {
 	return append(append([]interface{}{}, mixedGens...), extra...)
